@@ -98,7 +98,7 @@ def build(dest):
         if m == "iodine":
             extra = ["-Dmain=iodine_main"]
         jobs.append(cc(os.path.join(dest, "san", m + ".o"), src, ["-O1"] + SAN + extra))
-        if m not in ("iodine", "iodined", "tun", "util"):
+        if m not in ("iodine", "iodined"):
             jobs.append(cc(os.path.join(dest, "fn", m + ".o"), src, ["-O2"]))
             jobs.append(cc(os.path.join(dest, "fnsan", m + ".o"), src, ["-O1"] + SAN))
     jobs.append(["clang", "-std=gnu99", "-g", "-O1", "-D_GNU_SOURCE"] + SAN +
@@ -126,20 +126,32 @@ def build(dest):
                               os.path.join(dest, "san", "simk.o"), srv] + clis
     link += ["-Wl," + ",".join("--wrap=" + w for w in WRAPS), "-lz", "-lpthread"]
     run(link)
-    # function drivers (each optional: built if the source exists)
+    # function drivers (each optional: built if the source exists).  drv_X.c may have companion translation units
+    # drvpart_X_*.c (used to #include a program's .c file and reach its static functions) and a line
+    # "// WRAP: sym sym" naming libc symbols redirected with ld --wrap; "// LINK: tun util" adds objects.
     hd = os.path.join(VERIF, "harness")
     for fn in sorted(os.listdir(hd)):
         if fn.startswith("drv_") and fn.endswith(".c"):
             name = fn[:-2]
-            plain = [os.path.join(dest, "fn", m + ".o") for m in
-                     ["dns", "read", "encoding", "login", "base32", "base64", "base64u",
-                      "base128", "md5", "common", "user", "fw_query"]]
-            run(["clang", "-std=gnu99", "-O2", "-g", "-D_GNU_SOURCE", "-DLINUX", "-w", "-I" + SRC,
-                 "-I" + dest, os.path.join(hd, fn), "-o", os.path.join(dest, name)] + plain + ["-lz"])
+            short = name[4:]
+            parts = [os.path.join(hd, f) for f in sorted(os.listdir(hd)) if f.startswith("drvpart_%s_" % short) and f.endswith(".c")]
+            text = open(os.path.join(hd, fn)).read()
+            wraps, extra = [], []
+            for line in text.splitlines():
+                if line.startswith("// WRAP:"):
+                    wraps += line.split(":", 1)[1].split()
+                if line.startswith("// LINK:"):
+                    extra += line.split(":", 1)[1].split()
+            mods = ["dns", "read", "encoding", "login", "base32", "base64", "base64u", "base128", "md5", "common", "user",
+                    "fw_query"] + extra
+            wl = ["-Wl," + ",".join("--wrap=" + w for w in wraps)] if wraps else []
+            plain = [os.path.join(dest, "fn", m + ".o") for m in mods]
+            run(["clang", "-std=gnu99", "-O2", "-g", "-D_GNU_SOURCE", "-DLINUX", '-DGITREVISION="verif"', "-w", "-I" + SRC,
+                 "-I" + dest, os.path.join(hd, fn)] + parts + ["-o", os.path.join(dest, name)] + plain + wl + ["-lz"])
             sanobjs = [p.replace("/fn/", "/fnsan/") for p in plain]
-            run(["clang", "-std=gnu99", "-O1", "-g", "-D_GNU_SOURCE", "-DLINUX", "-w", "-I" + SRC,
-                 "-I" + dest] + SAN + [os.path.join(hd, fn), "-o", os.path.join(dest, name + "_san")]
-                + sanobjs + ["-lz"])
+            run(["clang", "-std=gnu99", "-O1", "-g", "-D_GNU_SOURCE", "-DLINUX", '-DGITREVISION="verif"', "-w", "-I" + SRC,
+                 "-I" + dest] + SAN + [os.path.join(hd, fn)] + parts + ["-o", os.path.join(dest, name + "_san")]
+                + sanobjs + wl + ["-lz"])
 
 
 def prune(keep):
